@@ -72,7 +72,13 @@ def opC12Import (j : Json) : Except String Json := do
   pure (Json.mkObj [("bound", Json.str i.bound), ("import_module", Json.str i.module), ("import_alias", Json.str i.alias),
                     ("reference", Json.str (referenceModule kind m a))])
 
+open Model.Names in
+def opC12DepModule (j : Json) : Except String Json := do
+  let n ← (← j.getObjVal? "name").getStr?
+  let plus ← (← j.getObjVal? "plus").getBool?
+  pure (Json.mkObj [("imported", Json.str (importedDepModule [] n plus)), ("shipped", Json.str (shippedDepModule [] n plus))])
+
 def opsC12 : List (String × (Json → Except String Json)) :=
-  [("c12.names", opC12Names), ("c12.path", opC12Path), ("c12.file", opC12File), ("c12.snake", opC12Snake), ("c12.camel", opC12Camel), ("c12.alias", opC12Alias), ("c12.svcnames", opC12SvcNames), ("c12.import", opC12Import)]
+  [("c12.names", opC12Names), ("c12.path", opC12Path), ("c12.file", opC12File), ("c12.snake", opC12Snake), ("c12.camel", opC12Camel), ("c12.alias", opC12Alias), ("c12.svcnames", opC12SvcNames), ("c12.import", opC12Import), ("c12.depmodule", opC12DepModule)]
 
 end GapicModel.Driver
